@@ -20,6 +20,8 @@ macro_rules! dispatch {
         match $id {
             "C01" => $f(&checks::c01::C01 { cost: false } $(, $arg)*),
             "C15" => $f(&checks::c01::C01 { cost: true } $(, $arg)*),
+            "C13" => $f(&checks::c13::C13 $(, $arg)*),
+            "C05" => $f(&checks::c05::C05 $(, $arg)*),
             _ => {
                 eprintln!("unknown or not-applicable property {}", $id);
                 std::process::exit(2)
